@@ -29,16 +29,31 @@ class G:
     rr_step = 0
 
 
+ROUND_WIT = (1.234, (1.234, 2.0), ((1.234,), 'a'), 1.2341, (1.2341, 2.0), 3)    # arguments that a tolerance changes (tol=2): flat and nested
+
+
+def zarg(x):
+    if isinstance(x, Sym):
+        return x
+    for i, w in enumerate(ROUND_WIT):
+        if type(w) is type(x) and w == x:
+            return i
+    return x
+
+
 def fA(x):
     G.evals['A'].append(x)
     if G.raising is not None:
         raise G.raising
-    return G.ctx.apply('F', [x])
+    return G.ctx.apply('F', [zarg(x)])
 
 
 def fB(x):
     G.evals['B'].append(x)
-    return G.ctx.apply('F', [x])
+    return G.ctx.apply('F', [zarg(x)])
+
+
+ERRORS = (UserError, TypeError, KeyError, AttributeError)     # what the wrapped function may raise (the caches' own control flow uses KeyError/TypeError)
 
 
 def coupled_choice(seq):
@@ -143,6 +158,8 @@ class Twin:
             kw['ignore'] = tuple(cfg['ignore'])
         if cfg.get('tol') is not None:
             kw['tol'] = cfg['tol']
+        if cfg.get('deep'):
+            kw['deep'] = True
         if cfg['algo'] in BOUNDED:
             kw['maxsize'] = maxsize
         return dec(**kw)(f)
@@ -182,9 +199,13 @@ class Twin:
         P = {'raise': 'C16', 'probe': 'C18', 'pickle': 'C20'}[sc]
         atoms = []
         pickled_at = cfg.get('pickle_after')
+        Err = ERRORS[ctx.choice(len(ERRORS), 'err')] if sc == 'raise' else None
         for i in range(N):
             G.rr_step = i
-            x = ctx.atom(ArgSort, 'x')
+            if cfg.get('args') == 'round':
+                x = ROUND_WIT[ctx.choice(len(ROUND_WIT), 'ri')]
+            else:
+                x = ctx.atom(ArgSort, 'x')
             atoms.append(x)
             # ---- C18: probes on side A only
             if sc == 'probe':
@@ -202,7 +223,8 @@ class Twin:
                                 ctx.check(stored, 'C18:lookup', {'kind': 'lookup returned a value for a non-resident call'})
                                 if stored:
                                     ctx.check(val == before[0][k], 'C18:lookup', {'kind': 'lookup returned a wrong value'})
-                                    ctx.check(val == ctx.apply('F', [px]), 'C18:lookup', {'kind': 'lookup value is not the function value'})
+                                    if cfg.get('args') != 'round':     # with a tolerance a nearby call's value is what is resident
+                                        ctx.check(val == ctx.apply('F', [zarg(px)]), 'C18:lookup', {'kind': 'lookup value is not the function value'})
                             except KeyError:
                                 ctx.check(not stored, 'C18:lookup', {'kind': 'lookup raised KeyError for a resident call'})
                     except (PathPruned, Inconclusive):
@@ -216,9 +238,9 @@ class Twin:
                               'C18:no-change', {'kind': 'probe changed contents or statistics'})
             # ---- C16: side A may raise on this call
             will_raise = sc == 'raise' and ctx.bool('raise')
-            err = UserError('boom %d' % i) if will_raise else None
+            err = Err('boom %d' % i) if will_raise else None
             nA, nB = len(G.evals['A']), len(G.evals['B'])
-            before = self.observe(gA) if will_raise else None
+            before = self.observe(gA) if (will_raise or sc == 'probe') else None
             G.raising = err
             G.rr_side = 'A'
             raised = None
@@ -259,6 +281,12 @@ class Twin:
                 ctx.check(gA.__wrapped__ is fA, 'C18:wrapped', {'kind': '__wrapped__ is not the original function'})
                 k = gA.key(x)
                 m = gA.__cache__()
+                after = self.observe(gA)
+                # whatever this call stored - in memory or in the archive - is stored under key(args)
+                for where, b4, af in (('memory', before[0], after[0]), ('archive', before[1], after[1])):
+                    for nk in af:
+                        if nk not in b4 and not (where == 'archive' and nk in before[0]):      # (an evicted entry keeps its own key)
+                            ctx.check(nk == k, 'C18:key-stored', {'kind': 'the call was stored in %s under a key other than key(args)' % where})
                 if algo != 'no':
                     ctx.check((k in m) or len(m) == 0 or algo in BOUNDED, 'C18:key-stored', {'kind': 'key() is not the key the call is stored under'})
                     if k in m:
@@ -332,6 +360,8 @@ def plan(prop, tier):
         kw['props'] = [prop]
         kw['name'] = 'twin/%s/%s-%s%s/%s/%s/N%d' % (kw['scenario'], kw['module'], kw['algo'], '+purge' if kw.get('purge') else '',
                                                    kw['backend'], kw.get('keymap', 'raw'), kw.get('N', 0))
+        if kw.get('args'):
+            kw['name'] += '/%s%s' % (kw['args'], '+deep' if kw.get('deep') else '')
         if kw.get('pickle_after'):
             kw['name'] += '/after%d' % kw['pickle_after']
         if kw.get('canary'):
@@ -359,6 +389,8 @@ def plan(prop, tier):
                     for km in (('raw',) if q else ('raw', 'str', 'pyhash')):
                         add(scenario='probe', module=m, algo=a, backend=b, keymap=km, N=N if a != 'rr' else 3)
                 add(scenario='probe', module=m, algo=a, backend='none', keymap='raw', N=3, ignore=[0] if False else None, tol=2)
+                for deep in (False, True):
+                    add(scenario='probe', module=m, algo=a, backend='cached_dict' if a == 'no' else 'none', keymap='raw', N=2 if q else 3, tol=2, deep=deep, args='round')
         add(scenario='probe', module='std', algo='lru', backend='none', N=2, canary=True)
     elif prop == 'C20':
         for m in ('std', 'safe'):
@@ -367,5 +399,8 @@ def plan(prop, tier):
                     for after in ((2,) if q else (1, 2, 3)):
                         add(scenario='pickle', module=m, algo=a, backend=b, N=after + (2 if q else 3), pickle_after=after,
                             keymap='raw' if m == 'std' else 'default')
+                # keymaps with state of their own: composed (a + b), typed, sentinel
+                for km in (('chain', 'rawsent') if q else ('chain', 'chainnf', 'rawsent', 'rawtyped', 'str', 'md5nf')):
+                    add(scenario='pickle', module=m, algo=a, backend='cached_dict', N=4, pickle_after=2, keymap=km)
         add(scenario='pickle', module='std', algo='lru', backend='none', N=3, pickle_after=1, canary=True)
     return cfgs
